@@ -1,0 +1,12 @@
+//go:build verif
+
+package lalr
+
+// Hooks for the verification harness (/verif). They only expose package internals.
+
+// VerifNewLookaheadRule runs newLookaheadRule on a copy of the given alternatives.
+func VerifNewLookaheadRule(las []Lookahead) (LookaheadRule, error) {
+	cp := make([]Lookahead, len(las))
+	copy(cp, las)
+	return newLookaheadRule(cp)
+}
